@@ -158,6 +158,16 @@ def gen_roc(tier, rng):
         ts = axis(rng.choice([0, 1700000000 * NS]), [rng.choice([1, 2, 60]) for _ in range(n - 1)]) if n else []
         for thr in (F(-1), -G):
             add(xs, ts, thr)
+    # 8. hairline rates: the rate exceeds (or misses) the threshold by 2^-30 / 2^-20: no tolerance band around it
+    for _ in range(150 if thorough else 60):
+        thr = F(rng.choice([0, F(1, 2), 1, 2, 100]))
+        e = F(1, 2 ** rng.choice([30, 30, 20])) * rng.choice([1, 1, -1, 0])
+        if thr + e < 0:
+            e = -e
+        dt = rng.choice([1, 1, 2])
+        a = F(rng.choice([0, 5, -3]))
+        xs = [a, a + rng.choice([1, -1]) * (thr + e) * dt, None][: rng.choice([2, 3])]
+        add(xs, axis(rng.choice([0, 1700000000 * NS]), [dt] * (len(xs) - 1)), thr)
     cases += big_shift_copies(cases, "xs", rng, 150 if tier == "quick" else 1500, lambda c: len(c["xs"]) == len(c["ts_ns"]))
     return cases
 
